@@ -530,6 +530,9 @@ package spec
 // Expander family (expander.go, schema_loader.go): C02 C03 C04 C05 C08 C09 C10 C11 C18
 // ===========================================================================
 
+// package-level error sentinels are initialised by init and never written afterwards (see the global/* obligations of C16)
+//@ axiom ErrResolveRefNeedsAPointer != nil && ErrDerefUnsupportedType != nil && ErrExpandUnsupportedType != nil && ErrUnknownTypeForReference != nil && ErrSpec != nil
+
 // ghost state of one run
 //   failures : number of $ref resolutions that failed so far (defined by resolveRef's outcome)
 //   cacheDom / cacheDoc : abstract view of the resolution cache used by the run (all loaders of a run share it)
@@ -613,3 +616,84 @@ package spec
 //@   ensures  [C18] cache-monotone @@ forall u string :: old(cacheDom[u]) ==> cacheDom[u] && cacheDoc[u] == old(cacheDoc[u])
 //@   ensures  [C11] loader-key-canonical @@ forall u string :: calls(r.context.loadDoc, u) > old(calls(r.context.loadDoc, u)) && cwdAvailable() ==> canonicalURL(u)
 //@   ensures  [C05] error-iff-missing @@ (result3 != nil) == (!old(cacheDom[loadKey(refURL)]) && !docOK(loadKey(refURL)))
+
+// ---- dependencies used by resolveRef
+
+//@ specfn ptrDefined(string, interface{}) bool
+//@ specfn ptrEval(string, interface{}) interface{}
+//@ ghost decodedFrom smt:(Array Int Iface)
+//@ specfn decodeOK(interface{}, int) bool
+
+// RFC 6901 evaluation of the reference's fragment on a document (assumed: github.com/go-openapi/jsonpointer)
+//@ ext (*github.com/go-openapi/jsonpointer.Pointer).Get
+//@   params p, document
+//@   pure
+//@   ensures (result2 == nil) == ptrDefined(ptrString(p), document)
+//@   ensures result2 == nil ==> result0 == ptrEval(ptrString(p), document)
+//@ specfn ptrString(*jsonpointer.Pointer) string
+
+//@ ext (*github.com/go-openapi/jsonreference.Ref).GetPointer
+//@   params r
+//@   pure
+//@   requires r != nil
+//@   ensures result != nil && ptrString(result) == (r.referenceURL == nil ? "" : r.referenceURL.Fragment)
+
+// decoding a generic JSON value into a typed target through a JSON round trip: a deep copy (assumed: swag)
+//@ ext github.com/go-openapi/swag.DynamicJSONToStruct
+//@   params data, target
+//@   assigns region(payload(target)), ghost(decodedFrom)
+//@   ensures (result == nil) == decodeOK(data, dynType(target))
+//@   ensures result == nil ==> decodedFrom == upd(old(decodedFrom), payload(target), data)
+//@   ensures result != nil ==> decodedFrom == old(decodedFrom)
+
+//@ ext github.com/go-openapi/jsonreference.New
+//@   params ref
+//@   assigns nothing
+//@   ensures (result1 == nil) == urlOK(ref)
+//@   ensures result1 == nil ==> result0.referenceURL != nil && freshObj(result0.referenceURL)
+//@           && result0.referenceURL.Scheme == urlScheme(ref) && result0.referenceURL.Host == normHost(urlScheme(ref), urlHost(ref))
+//@           && result0.referenceURL.Path == dedupSlashes(urlPath(ref)) && result0.referenceURL.RawQuery == urlQuery(ref) && result0.referenceURL.Fragment == urlFrag(ref)
+//@           && result0.HasFullURL == (urlScheme(ref) != "" && urlHost(ref) != "")
+//@           && result0.HasURLPathOnly == (!result0.HasFullURL && urlPath(ref) != "")
+//@           && result0.HasFragmentOnly == (!result0.HasFullURL && urlPath(ref) == "" && urlQuery(ref) == "" && urlFrag(ref) != "")
+//@           && result0.HasFileScheme == (urlScheme(ref) == "file") && result0.HasFullFilePath == hasPrefix(urlPath(ref), "/")
+
+// ---- resolveRef: which document, which pointer, which error (C05); failures ghost (C08)
+
+//@ define refLocal(ref *Ref) bool = (ref.referenceURL != nil && !((ref.HasFileScheme && ref.HasFullFilePath) || (!ref.HasFileScheme && ref.HasFullURL)) && !ref.HasURLPathOnly && ref.referenceURL.Fragment == "") || ref.HasFragmentOnly
+//@ define refFragment(ref *Ref) string = ref.referenceURL == nil ? "" : ref.referenceURL.Fragment
+// loader key of a canonical reference string x (record normalised as jsonreference does, fragment dropped, then normalizeBase)
+//@ define remoteKey(x string) string = normBase(urlStr(urlScheme(x), normHost(urlScheme(x), urlHost(x)), dedupSlashes(urlPath(x)), urlQuery(x), ""))
+// the document found under a key given the cache state before the call
+//@ define docAt(dom smt:(Array String Bool), doc smt:(Array String Iface), k string) interface{} = dom[k] ? doc[k] : docOf(k)
+//@ define availAt(dom smt:(Array String Bool), k string) bool = dom[k] || docOK(k)
+// the sub-document a reference designates inside document d
+//@ define designated(ref *Ref, d interface{}) interface{} = refString(ref) == "" ? d : ptrEval(refFragment(ref), d)
+//@ define designates(ref *Ref, d interface{}) bool = refString(ref) == "" || ptrDefined(refFragment(ref), d)
+
+//@ func (*schemaLoader).resolveRef
+//@   property C05, C08, C18
+//@   requires wfResolver(r) && ref != nil
+//@   requires urlOK(basePath)
+//@   assigns  region(payload(target)), ghost(decodedFrom, cacheDom, cacheDoc, calls, failures)
+//@   defines  failures == old(failures) + (result != nil ? 1 : 0)
+//@   ensures  [C05] needs-pointer @@ !reflect_is_ptr(target) ==> result != nil
+//@   ensures  [C05] zero-ref @@ old(ref.referenceURL == nil) && reflect_is_ptr(target) ==> result == nil && decodedFrom == old(decodedFrom)
+//@   ensures  [C05] local-in-root @@ reflect_is_ptr(target) && old(ref.referenceURL != nil && refLocal(ref) && r.root != nil) ==>
+//@               (result == nil) == old(designates(ref, r.root) && decodeOK(designated(ref, r.root), dynType(target)))
+//@   ensures  [C05] local-in-root-value @@ reflect_is_ptr(target) && old(ref.referenceURL != nil && refLocal(ref) && r.root != nil) && result == nil ==>
+//@               decodedFrom[payload(target)] == old(designated(ref, r.root))
+//@   ensures  [C05] remote @@ reflect_is_ptr(target) && old(ref.referenceURL != nil && !refLocal(ref)) ==>
+//@               (result == nil) == old(availAt(cacheDom, remoteKey(normURI(refString(ref), basePath)))
+//@                  && designates(ref, docAt(cacheDom, cacheDoc, remoteKey(normURI(refString(ref), basePath))))
+//@                  && decodeOK(designated(ref, docAt(cacheDom, cacheDoc, remoteKey(normURI(refString(ref), basePath)))), dynType(target)))
+//@   ensures  [C05] remote-value @@ reflect_is_ptr(target) && old(ref.referenceURL != nil && !refLocal(ref)) && result == nil ==>
+//@               decodedFrom[payload(target)] == old(designated(ref, docAt(cacheDom, cacheDoc, remoteKey(normURI(refString(ref), basePath)))))
+//@   ensures  [C05] local-by-location @@ reflect_is_ptr(target) && old(ref.referenceURL != nil && refLocal(ref) && r.root == nil && basePath != "" && availAt(cacheDom, remoteKey(basePath)) && docAt(cacheDom, cacheDoc, remoteKey(basePath)) != nil) ==>
+//@               (result == nil) == old(designates(ref, docAt(cacheDom, cacheDoc, remoteKey(basePath))) && decodeOK(designated(ref, docAt(cacheDom, cacheDoc, remoteKey(basePath))), dynType(target)))
+//@   ensures  [C05] local-by-location-value @@ reflect_is_ptr(target) && old(ref.referenceURL != nil && refLocal(ref) && r.root == nil && basePath != "" && availAt(cacheDom, remoteKey(basePath)) && docAt(cacheDom, cacheDoc, remoteKey(basePath)) != nil) && result == nil ==>
+//@               decodedFrom[payload(target)] == old(designated(ref, docAt(cacheDom, cacheDoc, remoteKey(basePath))))
+//@   ensures  [C18] cache-monotone @@ forall u string :: old(cacheDom[u]) ==> cacheDom[u] && cacheDoc[u] == old(cacheDoc[u])
+//@   ensures  [C18] loads-only-missing @@ forall u string :: calls(old(r.context.loadDoc), u) >= old(calls(r.context.loadDoc, u)) && (old(cacheDom[u]) ==> calls(old(r.context.loadDoc), u) == old(calls(r.context.loadDoc, u)))
+//@ define reflect_is_ptr(target interface{}) bool = reflect_kind_of(target) == 22
+//@ specfn reflect_kind_of(interface{}) int
